@@ -30,7 +30,7 @@ try:
             print(q.stdout[-1500:])
 finally:
     if isgit:
-        subprocess.run(["git", "-C", REPO, "reset", "-q", "--hard", "HEAD"])
+        subprocess.run(["git", "-C", REPO, "checkout", "--", "."])
     else:
         subprocess.run(["patch", "-p1", "-s", "-R", "-d", REPO, "-i", patch])
 json.dump(res, open(os.path.join(sd, "result.json"), "w"), indent=1)
